@@ -59,4 +59,8 @@ theorem add_listener_replay_now_eq (now : Int) : Gen.Cache.add_listener_replay_n
 /-- D24 repair: only the withdrawn records that are still cached are handed to `async_remove_records` -/
 theorem removes_keep_test_eq (b : Bool) : Gen.Cache.removes_keep_test b = b := rfl
 
+/-- D24b repair (D25): `async_update_records_complete` detaches the pending changes before it fires them -/
+theorem complete_takes_pending_eq (b : Bool) : Gen.Cache.complete_takes_pending b = b := rfl
+theorem complete_iterates_live_eq : Gen.Cache.complete_iterates_live = false := rfl
+
 end Zc
